@@ -1,0 +1,9 @@
+//go:build verif
+
+package linereader
+
+import "io"
+
+// VerifSetInput replaces the reader all console input is read from (os.Stdin
+// by default). Used by the verification harness to script the UI.
+func VerifSetInput(rd io.Reader) { r = newLineReader(rd) }
